@@ -520,7 +520,7 @@ func init() {
 		ID:          "C01",
 		Level:       "exploration",
 		Technique:   "runtime monitoring: crash / hang / work-bound monitor over isolated worker processes (journalled cases, solo re-run attribution, goroutine accounting through the verif hooks), every case list executed under GODEBUG=panicnil=0 and panicnil=1",
-		Rule:        "a case is (source bytes, alias table) delivered as string, []byte, io.Reader (1 byte per Read), a custom io.RuneScanner, and an io.Reader / io.RuneScanner that fails once with a non-EOF error at some position and then goes on (all four plain kinds for short sources, the six rotated otherwise); workloads: every string of <=5 tokens over a 7-token (thorough 10-token) alphabet around command substitutions and operator look-aheads with the transient failure at every position, every string of <=3 tokens of a 52-token alphabet joined by a blank and by nothing (thorough: plus 1/8 of all 4-token strings), every string of <=4 (thorough <=5) characters over 21 significant characters, every byte prefix of 2000 (thorough 50000) generated programs, 20 (thorough 200) byte mutations of each (deletions, duplications, swaps, inserted fragments incl. invalid UTF-8 and NUL), 4 random alias tables per program (names = words of the program; values with operators, reserved words, newlines, trailing blanks, self reference, chains), alias tables over all 2-token strings, all 216 cyclic alias tables over 3 names, and 20 scaling families run at n=1500 and 4n (bytes allocated must grow by less than x7). distinct_nontrivial = distinct syntax-error messages observed (a proxy for distinct lexer/parser paths).",
+		Rule:        "(also: 22 sources with comments in every kind of position, here-document bodies, quotes, expansions and continuations, delivered through an io.Reader / io.RuneScanner that fails for good from position k, for every k) a case is (source bytes, alias table) delivered as string, []byte, io.Reader (1 byte per Read), a custom io.RuneScanner, and an io.Reader / io.RuneScanner that fails once with a non-EOF error at some position and then goes on (all four plain kinds for short sources, the six rotated otherwise); workloads: every string of <=5 tokens over a 7-token (thorough 10-token) alphabet around command substitutions and operator look-aheads with the transient failure at every position, every string of <=3 tokens of a 52-token alphabet joined by a blank and by nothing (thorough: plus 1/8 of all 4-token strings), every string of <=4 (thorough <=5) characters over 21 significant characters, every byte prefix of 2000 (thorough 50000) generated programs, 20 (thorough 200) byte mutations of each (deletions, duplications, swaps, inserted fragments incl. invalid UTF-8 and NUL), 4 random alias tables per program (names = words of the program; values with operators, reserved words, newlines, trailing blanks, self reference, chains), alias tables over all 2-token strings, all 216 cyclic alias tables over 3 names, and 20 scaling families run at n=1500 and 4n (bytes allocated must grow by less than x7). distinct_nontrivial = distinct syntax-error messages observed (a proxy for distinct lexer/parser paths).",
 		Assumptions: []string{"'bounded time' is observed as: the call returns before a 10 s per-case watchdog (cases take microseconds), ReadRune calls <= 4*len+64, alias substitutions <= 64*(len+|table|+1), allocation growth of the scaling families < x7 for x4 input"},
 		GoDebug:     []string{"panicnil=0", "panicnil=1"},
 		Gen:         c01Gen,
